@@ -1,11 +1,59 @@
-(* C08 - Each downsample cache holds exactly the bucket means of the source
+(* C08 - Cache contents = bucket means of the source
    Property theorems only: statements, `exact <lemma>`, Print Assumptions, Check pins.
    Layers: F = documented format (Format.v), S = abstract spec (Spec/SpecStep), I = model of the Rust (World.step'). *)
 From Coq Require Import List NArith Bool Arith Sorted.
 From Coq Require Import Strings.Byte.
 Require Import BS.Bytes BS.Common BS.Api BS.Layout BS.Format BS.FormatFacts BS.Spec BS.SpecStep.
-Require Import BS.FS BS.FSFacts BS.Meta BS.MetaFacts BS.Header BS.Reader BS.ReaderFacts BS.Index BS.Data BS.DataFacts BS.Seek BS.Series BS.SeriesFacts.
+Require Import BS.FS BS.FSFacts BS.Meta BS.MetaFacts BS.Header BS.Reader BS.ReaderFacts BS.Index BS.Data BS.DataFacts BS.Seek BS.Series BS.SeriesFacts BS.ReadAllFacts BS.TotalFacts BS.CacheFacts.
 Import ListNotations.
 
-(* theorems for this property are added as the development grows; until then the property is
-   decided by the judge (Layer S/F, extracted) on the implementation and by the correspondence check *)
+
+
+(* RepS fs s p hdr ihdr l cs: the handle s of a series with cache levels cs = [(B, header of the cache file, header of
+   its index)] represents the list l: the source files are the encoding of l (as RepH), every cache level is itself an
+   intact series (RepD) whose lines are the means of the complete buckets of B source lines (Spec.cache_of), the bucket in
+   progress sits in the accumulator, and all file names differ. *)
+
+(* (I refines S) FULL STATEMENT for one session: create with any cache levels (bucket sizes >= 1, pairwise different file
+   names, nothing of that name on disk), append ANY well-formed list of lines: afterwards the data file of every level is
+   its header followed by the reference encoding of the bucket means of the whole list, and its index file is the index of
+   that encoding. Any payload size, any timestamps (sums are unbounded in the model, u128 in the Rust after the fix). *)
+Theorem C08_session : forall p fs name hdr (Bs:list N) cb xs,
+  let header := params_to_text BSgen.Consts.version (N.of_nat p) ++ hdr in
+  fs_mem fs (name ++ ext_data) = false -> fs_mem fs (name ++ ext_index) = false -> (len header <= 65535)%N ->
+  Forall (fun B => (1 <= B)%N /\ (len (config_header name B) <= 65535)%N
+                   /\ fs_mem fs (cache_name name B ++ ext_data) = false /\ fs_mem fs (cache_name name B ++ ext_index) = false) Bs ->
+  NoDup ([name ++ ext_data; name ++ ext_index] ++ flat_map (cache_names name) Bs) ->
+  wf_series p xs ->
+  exists fs1 s1 fs2 s2,
+    series_new name (N.of_nat p) hdr Bs cb fs = (fs1, Ok s1) /\ push_lines s1 xs fs1 = (fs2, Ok s2)
+    /\ RepS fs2 s2 p (le_enc 2 (len header) ++ BSgen.Consts.line_ends ++ header) (le_enc 2 0 ++ BSgen.Consts.line_ends) xs (map (new_spec name) Bs)
+    /\ Forall2 (fun ds B =>
+         fs_get fs2 (cache_name name B ++ ext_data)
+           = Some ((le_enc 2 (len (config_header name B)) ++ BSgen.Consts.line_ends ++ config_header name B)
+                   ++ encode p (cache_of p (N.to_nat B) xs))
+         /\ fs_get fs2 (cache_name name B ++ ext_index)
+           = Some ((le_enc 2 0 ++ BSgen.Consts.line_ends) ++ enc_index (sections p (encode p (cache_of p (N.to_nat B) xs)))))
+       (s_down s2) Bs.
+Proof. exact session_caches. Qed.
+Print Assumptions C08_session.
+
+(* the invariant is kept by every accepted append, from any state that satisfies it; files outside the series are untouched *)
+Theorem C08_append : forall fs s p hdr ihdr l cs ts pay,
+  RepS fs s p hdr ihdr l cs -> accepts p l ts pay = true ->
+  exists fs' s', push_line s ts pay fs = (fs', Ok s')
+    /\ RepS fs' s' p hdr ihdr (l ++ [(ts, pay)]) cs
+    /\ (forall g, ~ In g (all_files s) -> fs_get fs' g = fs_get fs g)
+    /\ all_files s' = all_files s /\ s_cb s' = s_cb s.
+Proof. exact push_line_caches. Qed.
+Print Assumptions C08_append.
+
+(* under the invariant the files of every level are the encoded bucket means *)
+Theorem C08_files : forall fs s p hdr ihdr l cs, RepS fs s p hdr ihdr l cs ->
+  Forall2 (fun ds c =>
+    file_is fs (d_file (ds_data ds)) (fst (snd c)) (encode p (cache_of p (fst c) l))
+    /\ file_is fs (ix_file (d_index (ds_data ds))) (snd (snd c)) (enc_index (sections p (encode p (cache_of p (fst c) l)))))
+    (s_down s) cs.
+Proof. exact RepS_cache_files. Qed.
+Print Assumptions C08_files.
+(* partial: the state after a reopen with existing caches (DownSampledData::open, repair) is C09: not proved, known finding D10. *)
